@@ -144,6 +144,7 @@ type FnCtx struct {
 	entryScope map[string]Val
 	entryLocks []string
 	loopEntries map[int]*State
+	clauseHit   map[string]bool // root only: emit-clause keys (callpre f / sendpre ch / ...) that met at least one site
 	capturedVars map[string]types.Object // closure under contract: variables of the enclosing function it uses
 	iterMarks   []iterMark // root only: allocation watermark at the start of the (arbitrary) iteration of each loop being executed
 	canaries []*Obligation
@@ -481,7 +482,9 @@ func (fc *FnCtx) updateStructVal(sv Val, i int, v string) Val {
 func (fc *FnCtx) loadStruct(st *State, p Val) Val {
 	sT, su, _ := derefStruct(p.Ty)
 	if isOpaqueStruct(sT) {
-		return Val{"opaque0", sT}
+		// the value behind a pointer to an abstract struct: unknown, a function of the pointer (not one shared constant)
+		fc.smt.declare("opq_at", "(declare-fun opq_at (Int) Opaque)")
+		return Val{"(opq_at " + p.T + ")", sT}
 	}
 	ss := fc.smt.structSort(sT, su)
 	if len(ss.fields) == 0 {
